@@ -178,6 +178,13 @@ class Distribution(Density, ABC):
             # Evaluate the log density of the conditioned distribution
             # We use _main_parameter to avoid extracting the name if not necessary
             if "_main_parameter" in kwargs:
+                # The main parameter was given by position, so no keyword besides the conditioning variables may be left over
+                unexpected = [key for key in kwargs if key not in cond_vars and key != "_main_parameter"]
+                if len(unexpected) > 0:
+                    raise ValueError(
+                        f"{self.logd.__qualname__}: The main parameter is given as positional argument, but keyword"
+                        f" arguments {unexpected} that are not conditioning variables are also given. Conditioning variables are: {cond_vars}"
+                    )
                 return new_dist.logd(kwargs["_main_parameter"])
             else:
                 main_params = {key: kwargs[key] for key in kwargs if key not in cond_vars}
